@@ -53,6 +53,7 @@ int env_dlopen_fail = 0;
 int env_dlsym_fail_at = 0;
 static int env_dlsym_calls = 0;
 int env_lock_depth = 0;
+int env_lock_blocking = 0;             /* C18: a second taker of the held lock is blocked (schedule infeasible) */
 int env_isal_force_singular = 0;
 
 /* ---- dynamic loading: the plug-ins are linked into the same image ---- */
@@ -122,6 +123,13 @@ void *dlsym(void *h, const char *name)
     return NULL;
 }
 
+/* ---- yield hook (guard LIBERASURECODE_VERIF in /repo): a no-op unless a harness installs a scheduler ---- */
+void (*env_yield_hook)(int id) = NULL;
+void liberasurecode_verif_yield(int id)
+{
+    if (env_yield_hook) env_yield_hook(id);
+}
+
 /* ---- logging: not a subject of any property ---- */
 void openlog(const char *ident, int option, int facility) { (void)ident; (void)option; (void)facility; }
 void closelog(void) {}
@@ -140,6 +148,7 @@ char *getenv(const char *name)
 int pthread_rwlock_wrlock(pthread_rwlock_t *l)
 {
     (void)l;
+    if (env_lock_blocking) __CPROVER_assume(env_lock_depth == 0);
     __CPROVER_assert(env_lock_depth == 0, "VP:rwlock taken while already held");
     env_lock_depth++;
     return 0;
